@@ -189,7 +189,7 @@ impl Prop for C17 {
         let n = prop_oneof![10 => 0u8..=18, 1 => 19u8..=60];
         prop_oneof![
             3 => (0u8..15, arb_d(), arb_d(), n.clone(), 0u8..8).prop_map(|(op, d, y, n, mode)| Case { op, d, y: Rhs::Dec(y), n, mode, t: None }),
-            5 => (0u8..15, arb_d(), arb_int(), any::<bool>(), n.clone(), 0u8..8).prop_map(|(op, d, i, l, n, mode)| Case { op, d, y: if l { Rhs::IntL(i) } else { Rhs::IntR(i) }, n, mode, t: None }),
+            5 => (0u8..15, arb_d(), arb_int_full(), any::<bool>(), n.clone(), 0u8..8).prop_map(|(op, d, i, l, n, mode)| Case { op, d, y: if l { Rhs::IntL(i) } else { Rhs::IntR(i) }, n, mode, t: None }),
             // small, human-scale operands: most operations succeed
             4 => (0u8..15, -100000i128..=100000, 0u8..=6, -300i128..=300, 0u8..9, any::<bool>(), 0u8..=18, 0u8..8).prop_map(|(op, c, s, v, ty, l, n, mode)| {
                 let (lo, hi) = int_range(ty);
